@@ -194,9 +194,8 @@ def compare_log(model_out, log):
             if mv != want:
                 return (f"{name}: exception class / success", it[:100], want)
         elif name == "cc":
-            if mv == "err:nan":          # the code computes with NaN/inf: a non-finite array or numpy's LinAlgError
-                if not ((st == "ok" and nonfinite(val)) or (st == "err" and val == "LinAlgError")):
-                    return ("compute_cov in the NaN domain", it[:100], f"{st}:{val if st == 'err' else np.asarray(val).tolist()}")
+            if mv == "err:nan":          # the code computes with NaN/inf (e.g. 1/0 = inf, inv([[inf]]) = [[0.]]): nothing is demanded
+                continue
             elif mv.startswith("err:"):
                 if st != "err" or val != mv[4:]:
                     return ("compute_cov: exception class", it[:100], f"{st}:{val if st == 'err' else np.asarray(val).tolist()}")
@@ -207,6 +206,9 @@ def compare_log(model_out, log):
             if mv == "err:nan":
                 if not (st == "ok" and nonfinite(val)):
                     return ("sqrtprec.T@sqrtprec in the NaN domain", it[:100], f"{st}:{val if st == 'err' else np.asarray(val).tolist()}")
+            elif mv == "err:LinAlgError":    # 1-D raw factor left behind by a raising sqrtprec setter: the Gram "matrix" is a 0-d number
+                if not (st == "ok" and np.ndim(val) == 0):
+                    return ("sqrtprec.T@sqrtprec of a 1-D raw factor", it[:100], f"{st}:{val if st == 'err' else np.asarray(val).tolist()}")
             elif mv.startswith("err:"):
                 if st != "err" or val != mv[4:]:
                     return ("sqrtprec.T@sqrtprec: exception class", it[:100], f"{st}:{val if st == 'err' else np.asarray(val).tolist()}")
